@@ -533,6 +533,12 @@ func c17CoreFaults(c *ev.Ctx, cs c17Case) {
 			for _, m := range h.Messages {
 				fmt.Fprintf(&sbd, "m%d:%x;", m.Type, m.Data)
 			}
+			// (looked up by name: the check must also build against a tree without the field)
+			if fv := reflect.ValueOf(h).Elem().FieldByName("AttributeError"); fv.IsValid() && !fv.IsNil() {
+				// the header is usable, asking for the attributes reports the error
+				sbd.WriteString("|attrsERR")
+				return sbd.String(), nil
+			}
 			fmt.Fprintf(&sbd, "|attrs%d:", len(h.Attributes))
 			for _, a := range h.Attributes {
 				fmt.Fprintf(&sbd, "%s=%x;", a.Name, a.Data)
@@ -652,6 +658,10 @@ func c17CoreFaults(c *ev.Ctx, cs c17Case) {
 					// an error: accepted
 				case werr != nil:
 					c.Violation("core-read-fault:different-answer:succeeds@"+base, map[string]any{"fault": fault, "intact_error": werr.Error()})
+				case got != want && strings.HasSuffix(got, "|attrsERR") && strings.HasPrefix(want, strings.TrimSuffix(got, "|attrsERR")+"|attrs"):
+					// same header, the attributes report their error
+				case got != want && strings.HasPrefix(cl.name, "ReadDataset*") && c17PartsAgree(want, got):
+					// every reader either failed or gave the intact answer
 				case got != want:
 					sym := "different-answer"
 					if strings.Contains(cl.name, "ReadObjectHeader") && strings.Contains(want, "|attrs") && attrCount(got) < attrCount(want) {
@@ -666,6 +676,21 @@ func c17CoreFaults(c *ev.Ctx, cs c17Case) {
 	c.Count("C:calls_under_failing_reader", int64(ran))
 	c.Count("C:entry_points_probed", int64(len(calls)))
 	c.Case(fmt.Sprintf("C|%s|calls%d", name, len(calls)), ran > 0)
+}
+
+// c17PartsAgree compares "f64:...|str:...|cmp:..." results part by part: a part that
+// failed under the fault (":ERR") is an accepted answer.
+func c17PartsAgree(want, got string) bool {
+	w, g := strings.Split(want, "|"), strings.Split(got, "|")
+	if len(w) != len(g) {
+		return false
+	}
+	for i := range w {
+		if g[i] != w[i] && !strings.HasSuffix(g[i], ":ERR") {
+			return false
+		}
+	}
+	return true
 }
 
 func attrCount(s string) int {
